@@ -1,6 +1,6 @@
 (** C13 - an I/O failure on one piece is confined to that piece.  Statements only. *)
 From TB Require Import Base Decimal BencodeModel TorrentModel TorrentProofs PathModel FsModel SolverModel FinderModel RunModel
-                       SolverProofs RunProofs FsProofs FaultProofs PreludeProofs TableProofs Generated GeneratedObligations SystemModel SystemProofs GlueProofs RunExample.
+                       SolverProofs RunProofs FsProofs FaultProofs PreludeProofs TableProofs Generated GeneratedObligations SystemModel SystemProofs GlueProofs RunExample SearchProofs EstablishProofs CompleteProofs.
 Local Open Scope N_scope.
 
 (** For every piece and with no hypothesis at all: any I/O error answer (a candidate that cannot
@@ -32,8 +32,23 @@ Theorem C13_whole_run_other_pieces_unaffected H content export ts ix es ws f0 po
   In pg (s_pool s) -> pgood content es pg.
 Proof. exact (whole_run_pool_good H content export ts ix es ws f0 pool0 s pg). Qed.
 
+(** WHOLE RUN, functional form of the confinement: let every OTHER program take arbitrary steps of
+    the full system - failed operations, arbitrary read answers, a write cut short - while the
+    evaluation of this piece itself meets no failure ([mreachA i]); if the piece stays available and
+    unobstructed, its evaluation still can only return [Success] and its segments are in place.  A
+    failure on one piece does not cost any other piece. *)
+Theorem C13_failure_elsewhere_costs_nothing H content es pc wit s s' i o :
+  table_functional content es -> wf_piece content pc -> Forall (fun sg => In (ps_entry sg) es) (w_segs pc) ->
+  cr H content pc -> H (piece_bytes content pc) = w_hash pc -> Forall (pad_zero content) (w_segs pc) ->
+  w_segs pc <> [] -> (forall sg, w_segs pc = [sg] -> ps_len sg <> 0) ->
+  alias_free content es (s_fs s) -> Forall (pgood content es) (s_pool s) ->
+  nth_error (s_pool s) i = Some (solve_prog H pc) -> mreachA content pc wit i s s' -> nth_error (s_pool s') i = Some (Ret o) ->
+  o = Success /\ forall sg, In sg (w_segs pc) -> e_pad (ps_entry sg) = false -> holds_seg content (s_fs s') sg.
+Proof. exact (fun Hfun Hwf Hall Hcr Hhash Hpadz Hne Hone => available_means_recovered_despite_faults H content es Hfun pc Hwf Hall Hcr Hhash Hpadz Hne Hone wit s s' i o). Qed.
+
 Print Assumptions C13_fault_ends_the_piece.
 Print Assumptions C13_no_lock_leaked.
 Print Assumptions C13_ops_before_fault_good.
 Print Assumptions C13_fault_counted.
 Print Assumptions C13_whole_run_other_pieces_unaffected.
+Print Assumptions C13_failure_elsewhere_costs_nothing.
